@@ -196,7 +196,8 @@ func checkC20(c c20Case) *evid.Fail {
 	if g := guard(func() {
 		slots := make([]*variants.Variant, nSlots)
 		model := make([]val, nSlots)
-		frozen := make([]bool, nSlots) // array shared through Assign: index writes are not modelled
+		frozen := make([]bool, nSlots)                    // array shared through Assign: index writes are not modelled
+		callerList := make([][]*variants.Variant, nSlots) // the list the caller built the array from, kept and reused later
 		for i := range slots {
 			slots[i] = variants.EmptyVariant()
 			model[i] = vNull()
@@ -245,7 +246,8 @@ func checkC20(c c20Case) *evid.Fail {
 				case "null":
 					v.SetAsObject(nil)
 				case "array":
-					list := make([]*variants.Variant, len(op.V.A))
+					// the caller's list has spare capacity, as lists built with append usually do
+					list := make([]*variants.Variant, len(op.V.A), len(op.V.A)+4)
 					for i, e := range op.V.A {
 						list[i] = e.toVariant()
 					}
@@ -254,13 +256,19 @@ func checkC20(c c20Case) *evid.Fail {
 					if len(list) > 0 {
 						list[len(list)-1] = variants.VariantFromString("caller's change")
 					}
-					list = append(list, variants.VariantFromInteger(-1))
-					_ = list
+					callerList[s] = list
 				}
 				model[s] = op.V
 				frozen[s] = false
+			case "callerAppend":
+				// the caller appends to (and overwrites in) the list it once handed over
+				if callerList[s] == nil {
+					continue
+				}
+				callerList[s] = append(callerList[s], variants.VariantFromString("caller's append"))
+				callerList[s][0] = variants.VariantFromString("caller's overwrite")
 			case "fromArray":
-				list := make([]*variants.Variant, len(op.V.A))
+				list := make([]*variants.Variant, len(op.V.A), len(op.V.A)+4)
 				for i, e := range op.V.A {
 					list[i] = e.toVariant()
 				}
@@ -268,6 +276,7 @@ func checkC20(c c20Case) *evid.Fail {
 				if len(list) > 0 {
 					list[0] = variants.VariantFromString("caller's change")
 				}
+				callerList[s] = list
 				model[s] = vArray(op.V.A...)
 				frozen[s] = false
 			case "setByIndex":
@@ -382,7 +391,7 @@ func c20NonTrivial(c c20Case) bool {
 			}
 		case "clone":
 			arrayMade = true
-		case "setByIndex", "setLength":
+		case "setByIndex", "setLength", "callerAppend":
 			if arrayMade {
 				return true
 			}
@@ -428,7 +437,7 @@ func genC20Value(t *rapid.T) val {
 func TestC20_RapidSM(t *testing.T) {
 	rec := evid.New("C20", "TestC20_RapidSM", "C20", c20Rule)
 	defer finish(t, rec)
-	opsKinds := []string{"set", "set", "fromArray", "setByIndex", "setByIndex", "setLength", "getByIndex", "assign", "assignNil", "clone", "clone", "clear", "equals", "equals"}
+	opsKinds := []string{"set", "set", "fromArray", "setByIndex", "setByIndex", "setLength", "getByIndex", "assign", "assignNil", "clone", "clone", "clear", "equals", "equals", "callerAppend", "callerAppend"}
 	runRapid(t, pick(40000, 300000), 20, func(rt *rapid.T) {
 		n := rapid.IntRange(1, 14).Draw(rt, "n")
 		var ops []c20Op
@@ -474,6 +483,7 @@ func TestC20_ExhaustiveShortHistories(t *testing.T) {
 		{Op: "setByIndex", Slot: 0, Idx: 0, V: vString("w")}, {Op: "setByIndex", Slot: 1, Idx: 2, V: vInt(9)}, {Op: "setLength", Slot: 1, Idx: 2},
 		{Op: "clone", Slot: 1, Src: 0}, {Op: "clone", Slot: 0, Src: 1}, {Op: "assign", Slot: 1, Src: 0}, {Op: "clear", Slot: 0},
 		{Op: "equals", Slot: 0, Src: 1}, {Op: "getByIndex", Slot: 1, Idx: 0},
+		{Op: "set", Slot: 1, V: vArray()}, {Op: "callerAppend", Slot: 1}, {Op: "callerAppend", Slot: 0},
 	}
 	depth := pick(4, 5)
 	rec.Bounds = fmt.Sprintf("all histories of length 1..%d over %d operations on two variants (array set, scalar set, fromArray, index writes inside and past the end, setLength, clone both ways, assign, clear, equals, getByIndex)", depth, len(alpha))
